@@ -1,5 +1,6 @@
 import Ucfg.Lemmas.Forest
 import Ucfg.Lemmas.ForestSet
+import Ucfg.Lemmas.ForestPlacedSet
 /-!
   C15 — Path, Parent, FlattenedKeys and diff describe the actual structure.
 
@@ -16,6 +17,15 @@ import Ucfg.Lemmas.ForestSet
     name, the last one being the value; `set_keeps_contexts` - no existing node's stored parent or name changes;
     `set_at_root_path` - for a container that is a root, `Path()` of the new value is exactly the address it was written
     to.
+  * THE INVARIANT OVER HISTORIES: `WP h` - every entry of every node's dictionary is a node that stores this node as its
+    parent and the entry's key as its name, every list element stores this node and its index - holds for the empty
+    heap and is kept by deep copies (`cpy_wp`), by fields.append (`appendCpy_wp`), by Merge as a whole under every list
+    policy (`merge_keeps_positions`, induction over the fuel with a claim per merge function), by Set* along a whole path
+    (`set_keeps_positions`) and so by every history of such operations (`history_keeps_positions`); and under `WP` what
+    `Path()` returns for a node reached from a root along entries is the list of keys and indices that led to it
+    (`wp_path_is_position`).  Outside: SetChild of a config that already has a parent (known finding D20 - it breaks
+    `WP`, `attach_attached_child_keeps_old_context`), Remove (its renumbering is `delAt_renumbers`), NewFrom's
+    normalisation (glue).
   What is *not* proved: that every public operation is a composition of these primitives (that is the reading of
   merge.go/path.go the model's header records, checked on histories through the fingerprint hook), and the claim for a
   node attached at two positions (known finding D20).
@@ -383,5 +393,166 @@ example : setPathH [⟨none, "", .sub [] []⟩] 0 [.name "a", .name "b", .idx 0]
 
 example : storedPath 4 [⟨none, "", .sub [("a", 1)] []⟩, ⟨some 0, "a", .sub [("b", 2)] []⟩, ⟨some 1, "b", .sub [] [3]⟩,
          ⟨some 2, "0", .prim "int" "7"⟩] 3 = ["a", "b", "0"] := by decide
+
+end Ucfg.C15
+
+/-! ### the invariant over histories -/
+namespace Ucfg.C15
+open Ucfg.Forest
+
+/-- the empty heap stores all positions correctly, and so does a heap holding one empty root -/
+theorem wp_empty : WP [] := by intro a nd hn; simp at hn
+
+theorem wp_new_root : WP [⟨none, "", .sub [] []⟩] := by
+  intro a nd hn
+  cases a with
+  | zero =>
+    simp only [List.getElem?_cons_zero, Option.some.injEq] at hn
+    subst hn
+    exact ⟨fun kc hkc => (by cases hkc), fun i c hc => (by simp at hc)⟩
+  | succ j => simp at hn
+
+/-- Merge, as a whole and under every list policy, keeps every stored position right -/
+theorem merge_keeps_positions (n cf : Nat) (pol : ArrPol) (h h' : Heap) (to frm : Id) (w : WP h)
+    (he : mergeH n cf pol h to frm = some h') : WP h' :=
+  (wclaims n).mh cf pol h h' to frm w he
+
+/-- Set* along a whole path keeps every stored position right -/
+theorem set_keeps_positions (h h' : Heap) (root : Id) (segs : List Seg) (k v : String) (w : WP h)
+    (hs : setPathH h root segs (.prim k v) = .ok h') : WP h' := by
+  unfold setPathH at hs
+  cases hw : walkSet h root segs with
+  | unmodelled => rw [hw] at hs; cases hs
+  | err => rw [hw] at hs; cases hs
+  | stop to rest =>
+    rw [hw] at hs
+    simp only at hs
+    cases hg : getSub h to with
+    | none => rw [hg] at hs; cases hs
+    | some q =>
+      rw [hg] at hs
+      simp only [SetRes.ok.injEq] at hs
+      subst hs
+      exact setChain_wp k v rest h to (getSub_lt hg) w
+
+/-- the operations of a history (merges between any two nodes, primitive writes along any path) -/
+inductive HOp where
+  | merge (pol : ArrPol) (to frm : Id)
+  | set (root : Id) (segs : List Seg) (kind val : String)
+
+/-- run a history; an operation the model does not describe (`none` / `unmodelled`) or that Go refuses leaves the heap -/
+def runOps (n cf : Nat) : Heap → List HOp → Heap
+  | h, [] => h
+  | h, .merge pol to frm :: r =>
+    (match mergeH n cf pol h to frm with
+     | some h1 => runOps n cf h1 r
+     | none => runOps n cf h r)
+  | h, .set root segs k v :: r =>
+    (match setPathH h root segs (.prim k v) with
+     | .ok h1 => runOps n cf h1 r
+     | _ => runOps n cf h r)
+
+/-- after ANY history of merges and writes, every node stores the position it is at -/
+theorem history_keeps_positions (n cf : Nat) (ops : List HOp) : ∀ h, WP h → WP (runOps n cf h ops) := by
+  induction ops with
+  | nil => intro h w; exact w
+  | cons op r ih =>
+    intro h w
+    cases op with
+    | merge pol to frm =>
+      simp only [runOps]
+      cases hm : mergeH n cf pol h to frm with
+      | none => exact ih h w
+      | some h1 => exact ih h1 (merge_keeps_positions n cf pol h h1 to frm w hm)
+    | set root segs k v =>
+      simp only [runOps]
+      cases hs : setPathH h root segs (.prim k v) with
+      | ok h1 => exact ih h1 (set_keeps_positions h h1 root segs k v w hs)
+      | err => exact ih h w
+      | unmodelled => exact ih h w
+
+/-- `links` leads from `up` down through entries that are actually stored: each node is listed in the one above under
+the name given (a dictionary key, or the index of a list element) -/
+def Descends (h : Heap) : Id → List (String × Id) → Prop
+  | _, [] => True
+  | up, (name, id) :: r =>
+    (∃ p f d a, getSub h up = some (p, f, d, a) ∧ ((name, id) ∈ d ∨ ∃ i, a[i]? = some id ∧ name = idxName i)) ∧
+    Descends h id r
+
+theorem wp_chain {h : Heap} (w : WP h) : ∀ (links : List (String × Id)) (up : Id),
+    Descends h up links → (∀ l ∈ links, l.1 ≠ "") → Chain h up links := by
+  intro links
+  induction links with
+  | nil => intro up _ _; trivial
+  | cons l r ih =>
+    intro up hd hne
+    obtain ⟨name, id⟩ := l
+    obtain ⟨⟨p, f, d, a, hg, hin⟩, hrest⟩ := hd
+    have pl := placed_of_getSub w hg
+    refine ⟨?_, hne _ (List.mem_cons_self ..), ih id hrest (fun l hl => hne l (List.mem_cons_of_mem _ hl))⟩
+    rcases hin with hin | ⟨i, hi, rfl⟩
+    · exact pl.1 _ hin
+    · exact pl.2 i id hi
+
+/-- under the invariant, Path() of a node reached from a root along stored entries is exactly the keys and indices that
+led to it -/
+theorem wp_path_is_position {h : Heap} (w : WP h) (root : Id) (rb : Body) (links : List (String × Id))
+    (hroot : h[root]? = some ⟨none, "", rb⟩) (hd : Descends h root links) (hne : ∀ l ∈ links, l.1 ≠ "")
+    (fuel : Nat) (hf : links.length < fuel) :
+    storedPath fuel h ((links.getLast?.map (·.2)).getD root) = links.map (·.1) :=
+  storedPath_is_position h root links rb hroot (wp_chain w links root hd hne) fuel hf
+
+/-- non-vacuity: two roots, `{a: {x: 1}}` and `{a: {y: 2}, l: [3]}`; the heap is well placed, stays so under the merge, and
+the merged-in `l.0` reports its path -/
+def exH : Heap :=
+  [⟨none, "", .sub [("a", 1)] []⟩, ⟨some 0, "a", .sub [("x", 2)] []⟩, ⟨some 1, "x", .prim "int" "1"⟩,
+   ⟨none, "", .sub [("a", 4), ("l", 6)] []⟩, ⟨some 3, "a", .sub [("y", 5)] []⟩, ⟨some 4, "y", .prim "int" "2"⟩,
+   ⟨some 3, "l", .sub [] [7]⟩, ⟨some 6, "0", .prim "int" "3"⟩]
+
+example : (mergeH 20 20 .merge exH 0 3).map (fun h' => storedPath 5 h' 10) = some ["l", "0"] := by decide
+
+/-- the invariant as a check that can be run -/
+def storesB (h : Heap) (a : Id) (name : String) (c : Id) : Bool :=
+  match h[c]? with
+  | some nd => nd.parent == some a && nd.field == name
+  | none => false
+
+def placedB (h : Heap) (a : Id) : Body → Bool
+  | .prim .. => true
+  | .sub d arr => d.all (fun kc => storesB h a kc.1 kc.2) && arr.zipIdx.all (fun ci => storesB h a (idxName ci.2) ci.1)
+
+def wpB (h : Heap) : Bool := h.zipIdx.all (fun na => placedB h na.2 na.1.body)
+
+theorem storesB_sound {h : Heap} {a : Id} {name : String} {c : Id} (hs : storesB h a name c = true) :
+    ∃ b, h[c]? = some (⟨some a, name, b⟩ : Node) := by
+  unfold storesB at hs
+  cases hn : h[c]? with
+  | none => rw [hn] at hs; cases hs
+  | some nd =>
+    rw [hn] at hs
+    simp only [Bool.and_eq_true, beq_iff_eq] at hs
+    obtain ⟨np, nf, nb⟩ := nd
+    simp only at hs
+    obtain ⟨rfl, rfl⟩ := hs
+    exact ⟨nb, rfl⟩
+
+theorem wpB_sound {h : Heap} (hb : wpB h = true) : WP h := by
+  intro a nd hn
+  unfold wpB at hb
+  rw [List.all_eq_true] at hb
+  have := hb (nd, a) (List.mem_zipIdx_iff_getElem?.mpr hn)
+  simp only at this
+  cases hbody : nd.body with
+  | prim k v => trivial
+  | sub d arr =>
+    rw [hbody] at this
+    simp only [placedB, Bool.and_eq_true, List.all_eq_true] at this
+    refine ⟨fun kc hkc => storesB_sound (this.1 kc hkc), ?_⟩
+    intro i c hc
+    exact storesB_sound (this.2 (c, i) (List.mem_zipIdx_iff_getElem?.mpr hc))
+
+/-- the two-root heap is well placed; so is what the merge makes of it (by the theorem, and by the check) -/
+example : WP exH := wpB_sound (by decide)
+example : (mergeH 20 20 .merge exH 0 3).map wpB = some true := by decide
 
 end Ucfg.C15
